@@ -20,8 +20,8 @@ EXTENDS Lexer, Json, TLC, FiniteSets
 
 CONSTANTS MaxLen, EmitReplay
 
-\* l e t 0 x 1 9 f < = ! ( _ space tab CR LF # é $ b 7
-Alphabet == {108, 101, 116, 48, 120, 49, 57, 102, 60, 61, 33, 40, 95, 32, 9, 13, 10, 35, 233, 36, 98, 55}
+\* l e t 0 x 1 9 f < = ! ( _ space tab CR LF # é $ b 7 U+FEFF (three bytes, shares its lead byte with the full-width digits)
+Alphabet == {108, 101, 116, 48, 120, 49, 57, 102, 60, 61, 33, 40, 95, 32, 9, 13, 10, 35, 233, 36, 98, 55, 65279}
 
 \* strings grow by one character per step, so that TLC's workers share the enumeration
 VARIABLE cs
